@@ -246,7 +246,7 @@ impl SubCheck for LeapNoPanic {
     }
     fn strategy(&self) -> Option<BoxedStrategy<Self::Case>> {
         Some(
-            (-100_000i64..100_000, (0u32..1440).prop_map(|m| m * 60 + 59), 1_000_000_000u32..2_000_000_000, span_strategy(1_000_000_007), 0u16..12, 0u8..6, any::<u32>())
+            (prop_oneof![6 => -100_000i64..100_000, 1 => -2i64..=1], prop_oneof![6 => (0u32..1440).prop_map(|m| m * 60 + 59), 1 => Just(86_399u32), 1 => Just(59u32)], 1_000_000_000u32..2_000_000_000, prop_oneof![3 => span_strategy(1_000_000_007), 1 => proptest::sample::select(vec![1i128, 2, 5, 8, 10, 125, 1000, 250_000, 1_000_000, 100_000_000, 500_000_000, 1_000_000_000]).prop_map(D::of)], 0u16..12, 0u8..6, any::<u32>())
                 .prop_map(|(z, secs, raw, span, dg, mode, k)| {
                     // fractions that are exact ties for the digit count, in particular in the last unit of the
                     // leap second (where rounding up carries out of it)
@@ -275,6 +275,26 @@ impl SubCheck for LeapNoPanic {
             // idempotence is asserted: only "returns normally, with a valid value"
             if let Ok(r) = call("duration_* on a leap second", || f(n))? {
                 ensure!(r.nanosecond() < 2_000_000_000 && r >= NaiveDateTime::MIN && r <= NaiveDateTime::MAX, "invalid value from op {op}");
+            }
+        }
+        // spans that divide one second only look at the sub-second part: inside the leap second the multiples
+        // are as well defined as for round_subsecs (carrying into the next second at its end)
+        let span_ns = span.ns();
+        if span_ns > 0 && 1_000_000_000 % span_ns == 0 {
+            obs.label("span_divides_one_second");
+            let f = t.frac as i128 - 1_000_000_000;
+            let down = f - f % span_ns;
+            let up = if f % span_ns == 0 { f } else { down + span_ns };
+            let near = if f % span_ns == 0 { f } else if up - f <= f - down { up } else { down };
+            let at = |v: i128| -> Result<NaiveDateTime, String> {
+                Ok(if v < 1_000_000_000 { conv::date(z).and_time(T { secs: t.secs, frac: (v + 1_000_000_000) as u32 }.build()?) } else { conv::date(z).and_time(T { secs: t.secs, frac: 0 }.build()?) + chrono::TimeDelta::seconds(1) })
+            };
+            for (name, exp, got) in [
+                ("duration_trunc", at(down)?, call("duration_trunc", || n.duration_trunc(td))?),
+                ("duration_round", at(near)?, call("duration_round", || n.duration_round(td))?),
+                ("duration_round_up", at(up)?, call("duration_round_up", || n.duration_round_up(td))?),
+            ] {
+                ensure_eq!(got, Ok(exp), "{name}({td:?}) of the leap reading {t:?} on day {z}");
             }
         }
         // zone-aware values round on the wall-clock reading: the DateTime route applied to a value whose
